@@ -748,11 +748,15 @@ impl Runner {
             }
             Op::SearchF { q, k, strat, os, f } => {
                 let cfg = filt_cfg(*strat, *os);
-                let res = conv(self.eng.search_similar_filtered(&f32s(q), *k, &f.cond(), cfg));
+                // what the index answers for the inner `search_similar(query, oversample_k)` of the
+                // post-filter strategy (the model ignores it unless it takes that path)
+                let qf = f32s(q);
+                let ann = if *strat == Strat::Pre { None } else { ann_keys(&self.dflt, &qf, (*k * *os).max(*k)) };
+                let res = conv(self.eng.search_similar_filtered(&qf, *k, &f.cond(), cfg));
                 if let Ok(r) = &res {
                     oracle(&format!("{}[{}]", op.tag(), strat.name()), r, q, *k, Metric::Cos, &self.dflt, Some(f), *strat != Strat::Pre, viol);
                 }
-                Obs::Search { res, ann: None }
+                Obs::Search { res, ann }
             }
             Op::CSearch { c, q, k } => {
                 let qf = f32s(q);
@@ -1451,6 +1455,9 @@ fn run_seq(cx: &mut Ctx, stream: &str, ops: &[Op]) {
         let line = match (&obs, op) {
             (Obs::Search { ann: Some(keys), .. }, Op::Search { q, k }) => format!("search_ann {} {k} {}", ints(q), keys_s(keys)),
             (Obs::Search { ann: Some(keys), .. }, Op::CSearch { c, q, k }) => format!("csearch_ann {c} {} {k} {}", ints(q), keys_s(keys)),
+            (Obs::Search { ann: Some(keys), .. }, Op::SearchF { q, k, strat, os, f }) => {
+                format!("searchf_ann {} {k} {} {os} {} {}", ints(q), strat.name(), f.rpn(), keys_s(keys))
+            }
             (Obs::Search { ann: Some(keys), .. }, Op::SearchP { q, k, skip, limit }) => {
                 format!("searchp_ann {} {k} {skip} {} {}", ints(q), limit.map_or("-".to_string(), |l| l.to_string()), keys_s(keys))
             }
@@ -1818,6 +1825,7 @@ fn hmetric_name(m: HNSWDistanceMetric) -> &'static str {
 /// computes (`EmbeddingStorage::distance_dense`, public), as order keys.
 fn hnsw_case(rep: &mut Report, m: &mut Model, r: &mut Rng, directed: Option<(&str, Vec<Vec<i64>>, Vec<(Vec<i64>, usize, usize)>, (usize, usize, usize, f64), HNSWDistanceMetric)>) {
     let stream = if directed.is_some() { "hnsw.directed" } else { "hnsw" };
+    let directed_case = directed.is_some();
     let (vecs, queries, (cm, cm0, efc, ml), metric, label): (Vec<Vec<i64>>, Vec<(Vec<i64>, usize, usize)>, (usize, usize, usize, f64), HNSWDistanceMetric, String) = match directed {
         Some((name, v, q, c, me)) => (v, q, c, me, name.to_string()),
         None => {
@@ -1859,6 +1867,11 @@ fn hnsw_case(rep: &mut Report, m: &mut Model, r: &mut Rng, directed: Option<(&st
     };
     let cfg = HNSWConfig { m: cm, m0: cm0, ef_construction: efc, ef_search: 50, ml, distance_metric: metric, ..HNSWConfig::default() };
     let idx = HNSWIndex::with_config(cfg);
+    // the model is given the distances the real index computes, so it does not matter that they
+    // are rounded: a third of the random cases use non-integer coordinates (x / 7, x / 1000.3)
+    let div: f32 = if directed_case { 1.0 } else { *r.pick(&[1.0f32, 1.0, 7.0, 1000.3]) };
+    rep.hit(if div == 1.0 { "hnsw.data.integer" } else { "hnsw.data.non_integer" });
+    let f32s = |v: &[i64]| -> Vec<f32> { v.iter().map(|x| *x as f32 / div).collect() };
     let mut lg = LevelGen { seed: 42, ml };
     let head = format!("hnew {cm} {cm0} {efc}");
     let mut trace: Vec<String> = vec![format!("{head} ml={ml} metric={}", hmetric_name(metric))];
@@ -2054,7 +2067,7 @@ fn bits_stream(rep: &mut Report, m: &mut Model, root: &Rng, scale: u64) {
         0x0000_0000, 0x8000_0000, 0x7FC0_0000, 0xFFC0_0001, 0x7F80_0000, 0xFF80_0000, 0x0000_0001, 0x8000_0001, 0x007F_FFFF, 0x3F80_0000, 0x3586_37BD, 0x3586_37BE, 0xB586_37BD,
         0x7F7F_FFFF,
     ];
-    for case in 0..1500 * scale {
+    for case in 0..1300 * scale {
         let d = 1 + r.below(16) as usize;
         let zeros = r.below(4); // 0: few zeros ... 3: mostly zeros
         let bits: Vec<u32> = (0..d)
@@ -2118,10 +2131,13 @@ fn main() {
     let args = parse_args();
     std::panic::set_hook(Box::new(|_| {})); // engine panics are caught and reported, not printed
     let mut rep = Report::new(
-        "seeded random op sequences (store / overwrite / delete / batch-delete / clear / build-index / search with every \
-         metric / filtered search, default and named collections) on integer-valued vectors |x|<=64, dim<=16; a sequence is \
+        "seeded random op sequences (store / overwrite / batch-store / delete / batch-delete / clear / update-metadata / \
+         remove-metadata-field / build-index / search with every metric / filtered search / paginated search, default and named \
+         collections, sequential and rayon scans) on integer-valued vectors |x|<=64, dim<=16; a sequence is \
          non-trivial when it has >=1 successful mutation and >=1 search with a non-empty result; distinct = distinct op text. \
-         bits: random f32 bit patterns, non-trivial when not all +0.0",
+         bits: random f32 bit patterns, non-trivial when not all +0.0. hnsw: a real HNSWIndex with a small random configuration \
+         (m, m0, ef_construction, ml, metric), up to 45 inserts of integer or non-integer vectors with duplicates / zeros / scaled \
+         copies, searches with random k and ef interleaved; non-trivial when some search returns more than one node",
     );
     let mut m = Model::spawn(&args.driver);
     rep.note("model = /repo with a71cd63e (every mutation invalidates the cached index), B1 (cached index consulted only for a query of the indexed dimension) and B2 (collection pre-filter scores with the collection's metric); post-filter search is modelled as it is (oversample, then filter) and its misses are reported by the oracle as the known findings vector_engine.search_similar_filtered/not_topk and vector_engine.search_filtered_in_collection/not_topk (directed reproductions run first)");
@@ -2133,7 +2149,7 @@ fn main() {
         for (name, ops) in directed() {
             run_seq(&mut cx, &format!("directed.{name}"), &ops);
         }
-        for (focus, name, n) in [(0u64, "default", 1400u64), (1, "named", 1000), (2, "mixed", 600)] {
+        for (focus, name, n) in [(0u64, "default", 1250u64), (1, "named", 900), (2, "mixed", 550)] {
             let base = root.fork(name);
             for i in 0..n * scale {
                 let mut g = Gen::new(base.fork(&i.to_string()));
@@ -2147,13 +2163,20 @@ fn main() {
     observe_foreign_index(&mut rep);
     observe_namespaces(&mut rep);
 
-    rep.expected_branches = ["model.ranked", "model.index", "model.ann", "model.zero", "model.err", "repr.dense", "repr.sparse", "err.dim_mismatch", "err.not_found", "err.empty_vector", "err.invalid_top_k", "err.coll_exists", "err.coll_not_found"]
+    rep.expected_branches = [
+        "model.ranked", "model.index", "model.ann", "model.zero", "model.err", "repr.dense", "repr.sparse", "err.dim_mismatch", "err.not_found", "err.empty_vector", "err.invalid_top_k", "err.coll_exists",
+        "err.coll_not_found", "err.batch_validation", "op.update_metadata", "op.remove_metadata_field", "op.batch_store_embeddings", "op.search_similar_paginated", "cfg.parallel_threshold=2",
+        "hnsw.multi_layer", "hnsw.n>m0(pruning possible)", "hnsw.recall.approximate", "hnsw.recall.exact_topk", "hnsw.small_index_regime", "hnsw.data.non_integer", "hnsw.metric.cosine", "hnsw.metric.euclid",
+        "hnsw.metric.dot", "search.small_live_index.checked_exact",
+    ]
         .iter()
         .map(|s| s.to_string())
         .collect();
     rep.note("scores: compared bit-for-bit against a recomputation of the engine's own f32 operation order from exact integers; the 1e-5 fallback (counted in distribution as score.within_1e-5(not-proof)) is an oracle, not a proof");
     rep.note("ties: the store's scan order is a HashSet iteration order, so equal scores are compared as tie classes (cosine: scores within 1e-6 relative are merged into one class, counted as rank.cosine_near_tie_merged)");
     rep.note("collection names / keys are [a-z0-9]+; the index over a named collection is built by the harness with the default (cosine) HNSW metric and only for cosine collections; when a later create_collection gives such a collection another metric the harness, as the owner of that index, invalidates it (sent to the model as the `invalidate_hnsw_cache` operation)");
-    rep.note("not modelled: HNSW graph construction and recall (only the contract of its output is used), SIMD rounding on non-integer data, IVF indexes, entity embeddings, persistence");
+    rep.note("HNSW stream: the model is given the level each insert drew (harness copy of the private xorshift / ln formula) and the distances the real index computes (EmbeddingStorage::distance_dense on the stored embedding, as order keys); answers are compared node id for node id, so the std BinaryHeap tie order is part of the correspondence; the score reported for a node is checked to be to_similarity of that node's distance");
+    rep.note("small_index_is_exact: every answer the engine takes from a live cached index over <= 32 vectors (default HNSWConfig) and every HNSW-stream search with n <= m0, n <= ef_construction, n <= max(ef,k) is compared with the exact top-k, as the Lean theorem small_index_search_is_exact predicts");
+    rep.note("not modelled: HNSW storage strategies other than dense, recall beyond the small-index regime, SIMD rounding of engine scores on non-integer data, IVF indexes, entity embeddings, persistence, non-default engine configuration other than parallel_threshold");
     rep.write(&args.out);
 }
